@@ -146,6 +146,14 @@ def gen_expr(rng, d):
         if rng.random() < 0.07:
             args = args[:-1]
         return ('ifs', args)
+    if r < 0.67:
+        # a bracketed group that BEGINS with an IF / IFS / IFERROR and ends with a reference, next to * / - : the brackets are the user's
+        head = rng.choice([('if', gen_cond(rng, 0), gen_leaf(rng, False), gen_leaf(rng, False)), ('iferror', gen_leaf(rng), ('lit', rng.randint(0, 9))),
+                           ('ifs', [gen_cond(rng, 0), gen_leaf(rng, False), ('bool', True), ('lit', rng.randint(0, 9))])])
+        tail = rng.choice([('cell', rng.choice(['A1', 'A2', 'B2'])), ('if', gen_cond(rng, 0), ('lit', 3), ('lit', 4))])
+        group = ('bin', rng.choice(['+', '-']), head, tail)
+        other = ('lit', rng.randint(2, 9)) if rng.random() < 0.6 else ('cell', rng.choice(['A1', 'A2', 'B2']))
+        return ('bin', rng.choice(['*', '/', '-']), group, other) if rng.random() < 0.6 else ('bin', rng.choice(['*', '-']), other, group)
     if r < 0.8:
         return ('bin', rng.choice(['+', '+', '*', '-', '/']), gen_expr(rng, d - 1), gen_expr(rng, d - 1))
     if r < 0.86:
